@@ -123,7 +123,39 @@ func treeWorld(branch, depth int, failing bool) *AWorld {
 	return w
 }
 
+// sessionWildWorld: an account (no key) hands the agent k wildcard delegations, each attested by the
+// authority; the invocation cites all 2k proofs. Session lookups must only look at attestations.
+func sessionWildWorld(k int, wild string) *AWorld {
+	w := shapeBase(3)
+	w.Principals = append(w.Principals, APrincipal{Kind: "mailto", Parse: true, Wraps: -1})
+	acct := 3
+	res := fmt.Sprintf("@%d", acct)
+	var prfs []int
+	for i := 0; i < k; i++ {
+		d := AToken{ID: len(w.Tokens), Iss: acct, Aud: 1, Signer: -1, Intact: true, AlgOk: false, Nonce: fmt.Sprintf("login%d", i),
+			Caps: []ACap{{Can: wild, With: res, Nb: [][2]int{}}}}
+		w.Tokens = append(w.Tokens, d)
+		a := AToken{ID: len(w.Tokens), Iss: 0, Aud: 1, Signer: 0, Intact: true, AlgOk: true,
+			Caps: []ACap{{Can: "ucan/attest", With: "@0", Nb: [][2]int{{0, d.ID}}}}}
+		w.Tokens = append(w.Tokens, a)
+		prfs = append(prfs, d.ID, a.ID)
+	}
+	inv := AToken{ID: len(w.Tokens), Iss: 1, Aud: 0, Signer: 1, Intact: true, AlgOk: true, Caps: []ACap{{Can: "store/add", With: res, Nb: [][2]int{}}}, Prfs: prfs}
+	inv.Inline = make([]bool, len(prfs))
+	for i := range inv.Inline {
+		inv.Inline[i] = true
+	}
+	w.Tokens = append(w.Tokens, inv)
+	w.Inv = inv.ID
+	return w
+}
+
 func genC19(cfg Config, emit Emit) error {
+	for k := 1; k <= 6; k++ {
+		for _, wild := range []string{"*", "ucan/*", "store/*", "store/add"} {
+			emit("cost", []string{mustJSON(sessionWildWorld(k, wild))}, "session-wild", true)
+		}
+	}
 	maxD := 9
 	if cfg.Thorough() {
 		maxD = 12
